@@ -104,7 +104,10 @@ def main():
         sys.exit(3)
 
     known = load_known()
-    evidence_path = os.path.join(ROOT, 'evidence', pid + '.json')
+    # evidence and replay files of runs against a scratch copy (MIROS_REPO) never touch the committed ones
+    repo = os.environ.get('MIROS_REPO', '/repo')
+    out_root = ROOT if os.path.realpath(repo) == '/repo' else os.path.join(os.path.realpath(repo), 'verif_out')
+    evidence_path = os.path.join(out_root, 'evidence', pid + '.json')
     os.makedirs(os.path.dirname(evidence_path), exist_ok=True)
     timeout_ms = 20000 if tier == 'quick' else 90000
 
@@ -185,7 +188,7 @@ def main():
 
     violations = []
     undecided = []
-    replay_dir = os.path.join(ROOT, 'replays', pid)
+    replay_dir = os.path.join(out_root, 'replays', pid)
     native = None
     need_native = bool(new_fail) or bool(unsupported)
     if need_native:
